@@ -1,9 +1,381 @@
-// Package c11: check for property C11 (stub until implemented).
+// Package c11: verifiers reject proofs of false statements and out-of-range secrets; Paillier operations
+// refuse out-of-domain values (ENUM).
+//
+// The space is an explicit product: proof system × false-statement family × violation size
+// {M+1, 2M, M·2^64, M·2^512} (M = largest accepted value of the bounded quantity) × vendored parameter
+// sets × session class × prover kind, where the prover is
+//   - "lib":     the library's own prover run on the bad witness (where it runs), or
+//   - "harness": a copy of the prover algorithm in this package with the masks chosen here, producing a
+//     transcript that satisfies every verification equation and misses exactly one range
+//     bound (each such transcript has a twin with the response exactly AT the bound, which
+//     must be accepted: that proves the rejection of the bound+1 transcript is due to the
+//     bound alone).
+//
+// Oracle: every case must be refused (Verify false / error). A panic of the code under test is recorded
+// with key c06-overlap/…:panic (C06 owns it); it counts as "not accepted" here.
 package c11
 
-import "verif/internal/core"
+import (
+	"fmt"
+	"math/big"
+	"runtime"
+	"sort"
+	"strings"
+	"sync"
+	"sync/atomic"
+	"time"
+
+	"github.com/bnb-chain/tss-lib/v2/crypto"
+	"github.com/bnb-chain/tss-lib/v2/crypto/paillier"
+	"github.com/bnb-chain/tss-lib/v2/tss"
+
+	"verif/internal/core"
+	"verif/internal/fix"
+)
 
 // Implemented reports whether this check is built.
-const Implemented = false
+const Implemented = true
 
-func Run(r *core.Run) { r.Cap("not implemented") }
+const watchdog = 180 * time.Second
+
+// ---------------------------------------------------------------------------------------------
+// guarded calls
+
+type result struct {
+	acc   bool
+	err   error
+	pan   string // panic value, "" if none
+	site  string // first /repo frame of the panic
+	hang  bool
+	extra string
+}
+
+func repoSite(stack string) string {
+	lines := strings.Split(stack, "\n")
+	for i := 0; i+1 < len(lines); i++ {
+		l := strings.TrimSpace(lines[i+1])
+		if strings.Contains(lines[i], "tss-lib") && !strings.Contains(lines[i], "panic") {
+			if j := strings.Index(l, " +0x"); j > 0 {
+				l = l[:j]
+			}
+			fn := strings.TrimSpace(lines[i])
+			if k := strings.Index(fn, "("); k > 0 {
+				fn = fn[:k]
+			}
+			return fn + " " + l
+		}
+	}
+	return ""
+}
+
+// guard runs f in its own goroutine, recovers a panic and gives up waiting after the watchdog.
+func guard(f func() (bool, error)) result {
+	ch := make(chan result, 1)
+	go func() {
+		defer func() {
+			if p := recover(); p != nil {
+				buf := make([]byte, 16<<10)
+				n := runtime.Stack(buf, false)
+				ch <- result{pan: clip(fmt.Sprint(p), 120), site: repoSite(string(buf[:n]))}
+			}
+		}()
+		a, e := f()
+		ch <- result{acc: a, err: e}
+	}()
+	select {
+	case o := <-ch:
+		return o
+	case <-time.After(watchdog):
+		return result{hang: true}
+	}
+}
+
+// tryProve runs a (library) prover under the same guard; ok=false means the prover could not run.
+func tryProve(f func() error) (ok bool, why string) {
+	r := guard(func() (bool, error) { return true, f() })
+	switch {
+	case r.hang:
+		return false, "hang"
+	case r.pan != "":
+		if strings.Contains(r.pan, errBudget.Error()) {
+			return false, "loops (randomness budget exhausted)"
+		}
+		return false, "panic: " + r.pan
+	case r.err != nil:
+		return false, "error: " + r.err.Error()
+	}
+	return true, ""
+}
+
+func clip(s string, n int) string {
+	if len(s) > n {
+		return s[:n] + "…"
+	}
+	return s
+}
+
+var errBudget = fmt.Errorf("c11: randomness budget exhausted")
+
+// budgetReader is a deterministic stream that fails after `left` bytes: a prover that loops forever
+// on a bad witness (rejection sampling that can never succeed) ends with a panic inside
+// common.MustGetRandomInt instead of spinning, without any wall-clock criterion.
+type budgetReader struct {
+	d    *core.DRBG
+	left int64
+}
+
+func newRand(label string) *budgetReader {
+	return &budgetReader{d: core.NewDRBG("c11/rand/" + label), left: 4 << 20}
+}
+
+func (b *budgetReader) Read(p []byte) (int, error) {
+	if atomic.AddInt64(&b.left, -int64(len(p))) < 0 {
+		return 0, errBudget
+	}
+	return b.d.Read(p)
+}
+
+// ---------------------------------------------------------------------------------------------
+// parameter sets
+
+type pset struct {
+	idx      int
+	sk       *paillier.PrivateKey
+	pk       *paillier.PublicKey
+	NT       *big.Int // NTilde = (2sp+1)(2sq+1)
+	h1, h2   *big.Int // h2 = h1^lam
+	lam      *big.Int // Alpha
+	lamInv   *big.Int // Beta = lam^-1 mod sp*sq
+	sp, sq   *big.Int // Sophie Germain primes
+	ord      *big.Int // sp*sq = order of the group of squares
+	ecdsaPub *crypto.ECPoint
+}
+
+func loadPsets() []*pset {
+	fx := fix.EcFixtures()
+	out := make([]*pset, len(fx))
+	for i := range fx {
+		k := fx[i]
+		out[i] = &pset{idx: i, sk: k.PaillierSK, pk: &k.PaillierSK.PublicKey, NT: k.NTildei, h1: k.H1i, h2: k.H2i,
+			lam: k.Alpha, lamInv: k.Beta, sp: k.P, sq: k.Q, ord: new(big.Int).Mul(k.P, k.Q), ecdsaPub: k.ECDSAPub}
+	}
+	return out
+}
+
+// ---------------------------------------------------------------------------------------------
+// tasks
+
+type env struct {
+	r      *core.Run
+	quick  bool
+	ps     []*pset
+	mods   map[string]*modulus
+	tasks  []*task
+	q      *big.Int // secp256k1 order
+	q3, q7 *big.Int
+	sess   []sessionClass
+}
+
+type sessionClass struct {
+	name string
+	bz   []byte
+}
+
+type task struct {
+	canon  string // canonical description of the case (distinctness)
+	family string
+	run    func(t *task)
+	sample interface{}
+	viol   []pendingViolation // emitted in enumeration order after the parallel phase (deterministic replay files)
+}
+
+type pendingViolation struct {
+	key, what string
+	rec       interface{}
+}
+
+func (t *task) violate(key, what string, rec interface{}) {
+	t.viol = append(t.viol, pendingViolation{key, what, rec})
+}
+
+func (e *env) add(family, canon string, run func(t *task)) {
+	e.tasks = append(e.tasks, &task{canon: canon, family: family, run: run})
+}
+
+// judge applies the oracle to one negative case.
+//   key   – case signature without the outcome class
+//   what  – human description
+//   rec   – reproduction data
+func (e *env) judge(t *task, key, what string, rec map[string]interface{}, res result) {
+	r := e.r
+	r.Count("evaluations", 1)
+	r.Count("cases/"+t.family, 1)
+	r.Distinct("cases", t.canon)
+	outcome := "rejected"
+	switch {
+	case res.hang:
+		outcome = "hang"
+		t.violate(key+":hang", what+": verification did not return within "+watchdog.String(), rec)
+	case res.pan != "":
+		outcome = "panic"
+		rec["panic"] = res.pan
+		rec["site"] = res.site
+		t.violate("c06-overlap/"+key+":panic", what+": panic in the code under test ("+res.pan+") at "+res.site+" [C06's business; counts as not accepted for C11]", rec)
+	case res.acc && res.err == nil:
+		outcome = "accepted"
+		t.violate(key+":accepted", what+": ACCEPTED", rec)
+	case res.err != nil:
+		outcome = "error"
+	}
+	r.Count("outcome/"+outcome, 1)
+	r.Distinct("outcomes", t.family+"/"+outcome)
+	if m, ok := t.sample.(map[string]interface{}); ok {
+		m["outcome"] = outcome
+	} else {
+		t.sample = map[string]interface{}{"case": t.canon, "outcome": outcome}
+	}
+}
+
+// control records the outcome of a positive control (a true statement / in-range twin that exercises the same
+// code path). A refused control is not a C11 violation (completeness is C10's property) but it makes the
+// matching negative cases uninformative, so the run is marked non-exhaustive.
+func (e *env) control(name string, res result) {
+	e.r.Count("controls", 1)
+	if res.acc && res.err == nil && res.pan == "" && !res.hang {
+		e.r.Count("controls_accepted", 1)
+		return
+	}
+	e.r.Count("controls_refused", 1)
+	e.r.Distinct("controls_refused_names", name)
+}
+
+func hexs(x *big.Int) string {
+	if x == nil {
+		return "nil"
+	}
+	if x.Sign() < 0 {
+		return "-" + new(big.Int).Neg(x).Text(16)
+	}
+	return x.Text(16)
+}
+
+// violation sizes relative to M, the largest accepted value.
+type sizeClass struct {
+	name string
+	f    func(M *big.Int) *big.Int
+}
+
+var sizes = []sizeClass{
+	{"bound+1", func(M *big.Int) *big.Int { return new(big.Int).Add(M, bi1) }},
+	{"2*bound", func(M *big.Int) *big.Int { return new(big.Int).Lsh(M, 1) }},
+	{"bound*2^64", func(M *big.Int) *big.Int { return new(big.Int).Lsh(M, 64) }},
+	{"bound*2^512", func(M *big.Int) *big.Int { return new(big.Int).Lsh(M, 512) }},
+}
+
+// generic value in [1, below) from a label.
+func generic(label string, below *big.Int) *big.Int {
+	v := new(big.Int).SetBytes(core.Bytes("c11/generic/"+label, (below.BitLen()+7)/8+8))
+	v.Mod(v, new(big.Int).Sub(below, bi1))
+	return v.Add(v, bi1)
+}
+
+// genericUnit: generic value in [1, n) coprime to n.
+func genericUnit(label string, n *big.Int) *big.Int {
+	for i := 0; ; i++ {
+		v := generic(fmt.Sprintf("%s#%d", label, i), n)
+		if gcd(v, n).Cmp(bi1) == 0 {
+			return v
+		}
+	}
+}
+
+// Run is the entry point.
+func Run(r *core.Run) {
+	e := &env{r: r, quick: r.Tier == "quick"}
+	e.q = new(big.Int).Set(tss.S256().Params().N)
+	e.q3 = new(big.Int).Exp(e.q, bi3, nil)
+	e.q7 = new(big.Int).Exp(e.q, bi(7), nil)
+	e.sess = []sessionClass{{"empty", []byte{}}, {"32B", core.Bytes("c11/session", 32)}}
+
+	mods, err := decodeModuli(moduliJSON)
+	if err == nil {
+		if bad := validateModuli(mods); len(bad) > 0 {
+			err = fmt.Errorf("%v", bad)
+		}
+	}
+	if err != nil {
+		r.Assume("testdata/moduli.json unusable (" + err.Error() + "); moduli regenerated in memory for this run")
+		mods = GenerateModuli()
+		if bad := validateModuli(mods); len(bad) > 0 {
+			r.Cap("cannot construct the bad moduli: " + strings.Join(bad, "; "))
+			r.Set("evaluations", 0)
+			r.Set("distinct_nontrivial", 0)
+			r.Set("rule", "not run")
+			return
+		}
+	}
+	e.mods = mods
+	e.ps = loadPsets()
+
+	e.schnorrTasks()
+	e.paillierGuardTasks()
+	e.facTasks()
+	e.mtaTasks()
+	e.paillierProofTasks()
+	e.modTasks()
+	e.dlnTasks()
+
+	budget := 8 * time.Minute
+	if e.quick {
+		budget = 100 * time.Second
+	}
+	var cut int64
+	var mu sync.Mutex
+	core.ParallelFor(len(e.tasks), 16, func(i int) {
+		if r.Elapsed() > budget {
+			atomic.AddInt64(&cut, 1)
+			return
+		}
+		t := e.tasks[i]
+		defer func() {
+			if p := recover(); p != nil { // a bug in the harness itself, never the library (library calls are guarded)
+				mu.Lock()
+				r.Cap(fmt.Sprintf("harness error in task %q: %v", t.canon, p))
+				mu.Unlock()
+			}
+		}()
+		t.run(t)
+	})
+	if cut > 0 {
+		r.Cap(fmt.Sprintf("time budget: %d of %d tasks not run", cut, len(e.tasks)))
+	}
+	if n := r.Get("controls_refused"); n > 0 {
+		r.Cap(fmt.Sprintf("%d positive control(s) refused (%s): the matching negative cases are uninformative; completeness is C10's property",
+			n, strings.Join(r.DistinctMembers("controls_refused_names"), ", ")))
+	}
+	// violations and samples in enumeration order (deterministic)
+	seen := map[string]int{}
+	for _, t := range e.tasks {
+		for _, v := range t.viol {
+			r.Violate(v.key, v.what, v.rec)
+		}
+		if t.sample != nil && (seen[t.family] < 2 || (t.family == "mod" && seen[t.family] < 64)) {
+			seen[t.family]++
+			r.ForceSample(t.sample)
+		}
+	}
+	fams := []string{}
+	for f := range seen {
+		fams = append(fams, fmt.Sprintf("%s=%d", f, r.Get("cases/"+f)))
+	}
+	sort.Strings(fams)
+	r.Set("families", fams)
+	r.Set("observed", r.DistinctMembers("observed"))
+	r.Set("lib_prover_cannot_run_reasons", r.DistinctMembers("lib_prover_cannot_run_reasons"))
+	r.Set("outcomes_by_family", r.DistinctMembers("outcomes"))
+	r.Set("evaluations", int(r.Get("evaluations")))
+	r.Set("distinct_nontrivial", r.NDistinct("cases"))
+	r.Set("rule", "product of proof system × false-statement family × violation size {M+1,2M,M·2^64,M·2^512} × vendored parameter sets × session class × prover kind (library prover on the bad witness | harness copy of the prover with chosen masks hitting exactly bound+1); "+
+		"a case is counted once per canonical string (system/family/variant/size/params/session/prover) and only if the harness has itself established that the statement is false or the response is really outside the bound (equivalent or in-language variants are skipped and counted as skipped_equivalent); "+
+		"positive controls (in-range twins, honest proofs) are counted separately as controls")
+}
